@@ -24,9 +24,9 @@ RULE = (
 ASSUMPTIONS = ["model.eff_pre/eff_post/eff_invs encode the statement; snapshots reached along two diamond paths are a silent zone"]
 
 
-def verdict(model: Model, cls: str, key: str, truth: Dict[str, Any]) -> Dict[str, Any]:
-    """The statement's verdict, independent of evaluation order."""
-    o = model.owner(cls, key)
+def verdict(model: Model, cls: str, key: str, truth: Dict[str, Any], owner: Any = None) -> Dict[str, Any]:
+    """The statement's verdict, independent of evaluation order (``owner``: judge as if that class provided the member)."""
+    o = owner if owner is not None else model.owner(cls, key)
     m = model.defines(o, key)
     pre = model.eff_pre(o, key)
     post = model.eff_post(o, key)
@@ -78,11 +78,39 @@ def error_matches(loaded, contracts, exc: BaseException, cid: str) -> bool:
     return False
 
 
-def classify(model: Model, cls: str, key: str, what: str) -> str:
+def explained_by_copy_shadow(model: Model, cls: str, key: str, truth: Dict[str, Any], obs: Any, loaded: Any, contracts: Any) -> bool:
+    """Is the observation exactly what the known copy-shadow mechanism predicts (and nothing else)?
+
+    The class ``k = copy_shadow(cls, key)`` holds a wrapped copy of the member it inherits from ``owner(k, key)``; Python finds
+    that copy for ``cls``. The prediction is therefore the verdict of the statement for the member of THAT owner (its body, its
+    effective contracts) under the invariants of ``cls``. Anything else observed in this corner is a different violation.
+    """
+    k = model.copy_shadow(cls, key)
+    if k is None:
+        return False
+    shadow_owner = model.owner(k, key)
+    v = verdict(model, cls, key, truth, owner=shadow_owner)
+    keys = obs.keys()
+    bodies = [e[1] for e in keys if e[0] == "body"]
+    if bool(bodies) != v["body"]:
+        return False
+    if bodies and not all(b.startswith(shadow_owner + "_") for b in bodies):
+        return False
+    if v["kind"] == "ok":
+        return bool(obs.returned)
+    if obs.returned:
+        return False
+    return any(error_matches(loaded, contracts, obs.exc, cid) for cid in v["culprits"])
+
+
+def classify(model: Model, cls: str, key: str, what: str, explained: bool = False) -> str:
     if model.copy_shadow(cls, key) is not None:
         # mechanism: a class that only adds invariants holds a copy of the member it inherits from classes without
-        # invariants; in a join that copy is found before the sibling class that overrides the member
-        return "C04/inherited-member-copy-shadows-override-in-mro"
+        # invariants; in a join that copy is found before the sibling class that overrides the member. The key of the known
+        # finding is used only if the observation is exactly what that mechanism predicts.
+        if explained:
+            return "C04/inherited-member-copy-shadows-override-in-mro"
+        return "C04/" + what + "/in-copy-shadow-corner-but-not-explained-by-it"
     o = model.owner(cls, key)
     # mechanism: several bases provide the member, one of them with no precondition at all
     cur = o
@@ -129,24 +157,25 @@ def judge(w, loaded, model, contracts, spec, cls: str, key: str, truth: Dict[str
     keys = obs.keys()
     body_ran = any(k[0] == "body" for k in keys)
     detail = {"verdict": v, "observed": obs.describe()}
+    explained = explained_by_copy_shadow(model, cls, key, truth, obs, loaded, contracts)
     w.count({"pre": "calls_pre_false", "post": "calls_post_false", "inv": "calls_inv_false", "ok": "calls_ok"}[v["kind"]])
     if v["body"] != body_ran:
-        w.violation(classify(model, cls, key, "body-entered-though-effective-pre-false" if body_ran else "body-not-entered-though-effective-pre-holds"),
+        w.violation(classify(model, cls, key, "body-entered-though-effective-pre-false" if body_ran else "body-not-entered-though-effective-pre-holds", explained),
                     "{}.{}: effective precondition {} but the body {}; outcome {}".format(
                         cls, key, "holds" if v["body"] else "is false", "ran" if body_ran else "did not run", obs.describe()["outcome"]),
                     case, detail)
         return
     if v["kind"] == "ok":
         if not obs.returned:
-            w.violation(classify(model, cls, key, "raised-though-all-effective-contracts-hold"), "{}.{} raised {}".format(
+            w.violation(classify(model, cls, key, "raised-though-all-effective-contracts-hold", explained), "{}.{} raised {}".format(
                 cls, key, obs.describe()["outcome"]), case, detail)
         return
     if obs.returned:
-        w.violation(classify(model, cls, key, "returned-though-effective-{}-false".format(v["kind"])),
+        w.violation(classify(model, cls, key, "returned-though-effective-{}-false".format(v["kind"]), explained),
                     "{}.{}: effective {} {} false but the call returned".format(cls, key, v["kind"], v["culprits"]), case, detail)
         return
     if not any(error_matches(loaded, contracts, obs.exc, cid) for cid in v["culprits"]):
-        w.violation(classify(model, cls, key, "error-of-a-contract-outside-the-effective-set"),
+        w.violation(classify(model, cls, key, "error-of-a-contract-outside-the-effective-set", explained),
                     "{}.{}: falsy effective contracts {} but the caller got {}".format(cls, key, v["culprits"], obs.describe()["outcome"]),
                     case, detail)
     if w.counters["calls"] % 211 == 1:
